@@ -309,6 +309,14 @@ func TestSim(t *testing.T) {
 				plan.Ops = plan.Ops[:v.OpIndex+1]
 			}
 		}
+		if prop.Replay != nil && os.Getenv("VERIF_NO_STAGE2") == "" && !strings.HasSuffix(v.Clause, ".race") && !strings.HasSuffix(v.Clause, ".process-history") && !strings.HasSuffix(v.Clause, ".parallel-trace") && !strings.HasSuffix(v.Clause, ".process") {
+			var rep *minReport
+			plan, v, rep = minimisePlan(plan, v, prop.Replay, 30*time.Second)
+			if plan.Extra == nil {
+				plan.Extra = map[string]any{}
+			}
+			plan.Extra["minimisation_stage_two"] = rep
+		}
 		plan.Clause = v.Clause
 		plan.Violation = v
 		plan.VerifSeed, plan.Tier, plan.Shard, plan.RapidSeed = env.VerifSeed, env.Tier, env.Shard, rapidSeed
